@@ -28,12 +28,13 @@ type Pat struct {
 }
 
 // Def is one DEFINE entry. Kind: gt (v > C), lt (v < C), gtprev (v > PREV(v)), ltprev,
-// sumlt (SUM(Ref.v) < C), countlt (COUNT(*) < C).
+// sumlt (SUM(Ref.v) < C), countlt (COUNT(*) < C), gtw (v > C AND w == K).
 type Def struct {
 	Sym  string `json:"sym"`
 	Kind string `json:"kind"`
 	C    int    `json:"c,omitempty"`
 	Ref  string `json:"ref,omitempty"`
+	K    int    `json:"k,omitempty"`
 }
 
 type Event struct {
@@ -41,6 +42,10 @@ type Event struct {
 	P  int   `json:"p"` // partition index
 	V  int   `json:"v"`
 	TS int64 `json:"ts"`
+	// sparse rows: NoV = the row has no column v at all (a condition that reads v fails for it: not satisfied);
+	// W is a second column present in every row (conditions of kind gtw read both)
+	NoV bool `json:"nov,omitempty"`
+	W   int  `json:"w,omitempty"`
 }
 
 type Case struct {
@@ -128,6 +133,8 @@ func (d Def) render() string {
 		return fmt.Sprintf("%s AS SUM(%s.v) < %d", d.Sym, d.Ref, d.C)
 	case "countlt":
 		return fmt.Sprintf("%s AS COUNT(*) < %d", d.Sym, d.C)
+	case "gtw":
+		return fmt.Sprintf("%s AS v > %d AND w == %d", d.Sym, d.C, d.K)
 	}
 	panic("def: " + d.Kind)
 }
@@ -357,9 +364,16 @@ func genCase(t *rapid.T) Case {
 			usedSyms = append(usedSyms, s)
 		}
 	}
+	sparse := rapid.IntRange(0, 3).Draw(t, "sparse") == 0 // some rows lack v: only conditions whose value is then fixed
 	for _, s := range usedSyms {
 		d := Def{Sym: s}
-		switch rapid.IntRange(1, 11).Draw(t, "defkind") {
+		dk := rapid.IntRange(1, 13).Draw(t, "defkind")
+		if sparse && (dk == 6 || dk == 7 || dk == 8) {
+			dk = 12
+		}
+		switch dk {
+		case 12, 13:
+			d.Kind, d.C, d.K = "gtw", rapid.IntRange(0, 5).Draw(t, "c"), rapid.IntRange(0, 2).Draw(t, "k")
 		case 10, 11:
 			continue // undefined: always true
 		case 1, 2, 3:
@@ -468,7 +482,11 @@ func genCase(t *rapid.T) Case {
 				ts += rapid.SampledFrom([]int64{3599999, 3600000, 3600001, 7200000}).Draw(t, "edge")
 			}
 		}
-		c.Events = append(c.Events, Event{ID: id, P: p, V: rapid.IntRange(0, 9).Draw(t, "v"), TS: ts})
+		ev := Event{ID: id, P: p, V: rapid.IntRange(0, 9).Draw(t, "v"), TS: ts, W: rapid.IntRange(0, 2).Draw(t, "w")}
+		if sparse && rapid.IntRange(0, 3).Draw(t, "nov") == 0 {
+			ev.NoV, ev.V = true, 0
+		}
+		c.Events = append(c.Events, ev)
 	}
 	if pbt.Open("C15", "emit-order") {
 		// known finding: end the partition just before the row at which the engine would report a later
@@ -542,7 +560,7 @@ func runCase(c Case) (res pbt.Result) {
 	idxInPart := map[int]int{}
 	for _, e := range c.Events {
 		idxInPart[e.ID] = len(parts[e.P])
-		parts[e.P] = append(parts[e.P], prow{id: e.ID, v: e.V, ts: normTs(c, e.TS)})
+		parts[e.P] = append(parts[e.P], prow{id: e.ID, v: e.V, ts: normTs(c, e.TS), noV: e.NoV, w: e.W})
 		evByID[e.ID] = e
 	}
 	defs := map[string]Def{}
@@ -559,7 +577,10 @@ func runCase(c Case) (res pbt.Result) {
 	}
 	defer in.Stop()
 	for _, e := range c.Events {
-		row := map[string]any{"id": e.ID, "v": e.V, "ts": int(e.TS), "p": fmt.Sprintf("p%d", e.P)}
+		row := map[string]any{"id": e.ID, "v": e.V, "w": e.W, "ts": int(e.TS), "p": fmt.Sprintf("p%d", e.P)}
+		if e.NoV {
+			delete(row, "v")
+		}
 		in.Emit(row)
 	}
 	// barrier: every emitted row has been taken by the (single) processing goroutine; Stop joins it
@@ -602,7 +623,7 @@ func runCase(c Case) (res pbt.Result) {
 				cnt, ok4 := num(r, "cnt")
 				sv, ok5 := num(r, "sv")
 				cls, ok6 := r["cls"].(string)
-				if !ok3 || !ok4 || !ok5 || !ok6 {
+				if !ok3 || !ok4 || !ok6 {
 					bad("bad-row", "output row with missing/non-integer measures: %v", r)
 					return
 				}
@@ -617,10 +638,18 @@ func runCase(c Case) (res pbt.Result) {
 					return
 				}
 				want := 0
+				sparseMatch := false // SUM(v) over a match with a row that has no v is not fixed by the property
 				for _, pr := range part[m.start : m.start+cnt] {
 					want += pr.v
+					if pr.noV {
+						sparseMatch = true
+					}
 				}
-				if sv != want {
+				if !sparseMatch && !ok5 {
+					bad("bad-row", "output row with missing/non-integer SUM(v): %v", r)
+					return
+				}
+				if !sparseMatch && sv != want {
 					bad("bad-measures", "partition p%d: SUM(v)=%d want %d for ids %d..%d: %v", fe.P, sv, want, fid, lid, r)
 					return
 				}
@@ -633,6 +662,7 @@ func runCase(c Case) (res pbt.Result) {
 				// consecutive rows with the same FIRST(id) and MATCH_NUMBER form one match
 				j := i
 				sum := 0
+				sparseSoFar := false
 				for j < len(rows) {
 					rr := rows[j]
 					f2, _ := num(rr, "fid")
@@ -646,7 +676,7 @@ func runCase(c Case) (res pbt.Result) {
 					lid, ok4 := num(rr, "lid")
 					sv, ok5 := num(rr, "sv")
 					cls, ok6 := rr["cls"].(string)
-					if !ok3 || !ok4 || !ok5 || !ok6 {
+					if !ok3 || !ok4 || !ok6 {
 						bad("bad-row", "ALL ROWS row with missing/non-integer columns: %v", rr)
 						return
 					}
@@ -658,6 +688,15 @@ func runCase(c Case) (res pbt.Result) {
 					e := evByID[id]
 					vcol, _ := num(rr, "v")
 					tcol, _ := gen.ToFloat(rr["ts"])
+					if part[m.start+k].noV {
+						sparseSoFar = true
+					}
+					if sparseSoFar {
+						sv, vcol = sum, e.V // a row without v: the running SUM(v) and the v column are not fixed by the property
+					} else if !ok5 {
+						bad("bad-row", "ALL ROWS row with missing/non-integer SUM(v): %v", rr)
+						return
+					}
 					if cnt != k+1 || lid != id || sv != sum || vcol != e.V || int64(tcol) != e.TS || rr["p"] != fmt.Sprintf("p%d", e.P) {
 						bad("bad-measures", "partition p%d: row %d of match at id %d: want cnt=%d lid=%d sv=%d v=%d ts=%d p=p%d, got %v", fe.P, k+1, fid, k+1, id, sum, e.V, e.TS, e.P, rr)
 						return
@@ -778,7 +817,7 @@ func splitPartitions(c Case) (parts [][]prow) {
 		for e.P >= len(parts) {
 			parts = append(parts, nil)
 		}
-		parts[e.P] = append(parts[e.P], prow{id: e.ID, v: e.V, ts: normTs(c, e.TS)})
+		parts[e.P] = append(parts[e.P], prow{id: e.ID, v: e.V, ts: normTs(c, e.TS), noV: e.NoV, w: e.W})
 	}
 	return
 }
@@ -828,9 +867,13 @@ func checkPartition(c Case, p int, rows []prow, infos []startInfo, m *matcher, e
 	}
 	ctx := func() string {
 		var sb strings.Builder
-		fmt.Fprintf(&sb, "partition p%d rows(id:v@ts)=", p)
+		fmt.Fprintf(&sb, "partition p%d rows(id:v,w@ts; v=- for a row without v)=", p)
 		for _, r := range rows {
-			fmt.Fprintf(&sb, "%d:%d@%d ", r.id, r.v, r.ts)
+			if r.noV {
+				fmt.Fprintf(&sb, "%d:-,%d@%d ", r.id, r.w, r.ts)
+			} else {
+				fmt.Fprintf(&sb, "%d:%d,%d@%d ", r.id, r.v, r.w, r.ts)
+			}
 		}
 		fmt.Fprintf(&sb, "engine matches=[")
 		for _, e := range eng {
@@ -1042,7 +1085,7 @@ func features(c Case) []string {
 
 var spec = pbt.Spec[Case]{
 	ID:   "C15",
-	Rule: "generated: pattern trees over <=4 variables (sequence, alternation, groups, ? * + {n} {n,} {n,m}, PERMUTE of 2-3, greedy only), DEFINE per variable from {v>c, v<c, v>PREV(v), v<PREV(v), SUM(X.v)<c, COUNT(*)<c, undefined}, 1-3 interleaved partitions of 0-14 events, all AFTER MATCH SKIP modes, ONE ROW / ALL ROWS PER MATCH, the six MEASURES in random order, WITHIN absent/'1h'/other durations over epoch-ms stamps with gaps around the bound or small sequence numbers, Stop() flushes; oracle: own backtracking matcher over the pattern tree enumerates every accepted labeling per start, engine matches per partition must be exactly leftmost-allowed start + longest length in order with MATCH_NUMBER 1,2,3.., classification valid, MEASURES recomputed. non-trivial = >=1 match, quantifier or alternation present, some start with accepted labelings of two different lengths; distinct = hash of the case JSON",
+	Rule: "generated: pattern trees over <=4 variables (sequence, alternation, groups, ? * + {n} {n,} {n,m}, PERMUTE of 2-3, greedy only), DEFINE per variable from {v>c, v<c, v>PREV(v), v<PREV(v), SUM(X.v)<c, COUNT(*)<c, v>c AND w==k, undefined}; one case in four is sparse (a quarter of its rows have no column v; conditions then only from the kinds whose value is fixed for such a row: not satisfied), 1-3 interleaved partitions of 0-14 events, all AFTER MATCH SKIP modes, ONE ROW / ALL ROWS PER MATCH, the six MEASURES in random order, WITHIN absent/'1h'/other durations over epoch-ms stamps with gaps around the bound or small sequence numbers, Stop() flushes; oracle: own backtracking matcher over the pattern tree enumerates every accepted labeling per start, engine matches per partition must be exactly leftmost-allowed start + longest length in order with MATCH_NUMBER 1,2,3.., classification valid, MEASURES recomputed. non-trivial = >=1 match, quantifier or alternation present, some start with accepted labelings of two different lengths; distinct = hash of the case JSON",
 	Assumptions: []string{
 		"input never dropped: WithOverflowStrategy(block,0); all rows consumed before Stop (data_chan_len==0, Stop joins the processor)",
 		"PREV on the first row of a match is NULL and fails the comparison; aggregates in DEFINE include the candidate row (cep/eval.go rowsLabels)",
